@@ -480,4 +480,19 @@ theorem matchSM_requestPath_inv {root : State} {mg rd : Bool} {q : Req} {dom pat
         · rename_i hm; cases h; exact .inr ⟨r, vs, rfl, hm, rfl⟩
         · cases h
 
+/-- maps without subdomain / host rules: every rule's parts have the `_parse_rule` shape -/
+theorem mkMap_finalShape {cfg : MapCfg} {specs : List RuleSpec} {m : RMap} (h : mkMap cfg specs = some m)
+    (hsub : cfg.defaultSubdomain = []) (hdom : ∀ s ∈ specs, s.domain = none) :
+    ∀ r ∈ m.rules, FinalShape r.parts := by
+  simp only [mkMap, Option.map_eq_some_iff] at h
+  obtain ⟨rules, hb, rfl⟩ := h
+  intro r hr
+  obtain ⟨j, s, hs, hbr⟩ := bindRulesFrom_mem hb r hr
+  apply bindRule_finalShape hbr
+  simp [hdom s hs, hsub]
+
+def Res.isSlash : Res → Bool
+  | .slash => true
+  | _ => false
+
 end Wz.Routing
